@@ -125,6 +125,14 @@ def _h5_equal(a, b, skip=('metadata',)):
             if n in skip:
                 continue
             x, y = fa[n][()], fb[n][()]
+            if n == 'taxonomy_tree':
+                # the tree carries its own provenance record (time stamp, parameters): compared without it
+                tx, ty = json.loads(x.decode()), json.loads(y.decode())
+                tx.pop('metadata', None)
+                ty.pop('metadata', None)
+                if tx != ty:
+                    diffs.append(n)
+                continue
             if isinstance(x, np.ndarray):
                 if x.shape != y.shape:
                     diffs.append(n)
